@@ -90,6 +90,39 @@ Section C15.
     exact (scan_request_count env_ser env_de max default coll env_round_trip env_bytes o lim
              coll_sorted lim_nonzero cfg_default cfg_max tokens_fit).
   Qed.
+
+  (* Without the premise [tokens_fit] (an item's selector may be too large for
+     a token): a scan that ends — a page without token — has still delivered
+     every item exactly once and in order, within the page bound, tokens on
+     exactly the non-empty pages.  A scan is never cut short silently. *)
+  Theorem C15_scan_done_is_complete : forall fuel pages,
+    full_scan env_ser env_de max default coll fuel o lim = Done pages ->
+    concat (map items pages) = view o coll /\
+    (forall p, In p pages ->
+       N.of_nat (length (items p)) <= page_limit lim max default /\
+       (next_page p = None <-> items p = [])).
+  Proof.
+    exact (scan_done_is_complete env_ser env_de max default coll env_round_trip env_bytes o lim
+             coll_sorted lim_nonzero cfg_default cfg_max).
+  Qed.
+
+  (* ... the only other way it stops is an explicit failure (500) of the
+     request whose page would end on an item whose token cannot be issued;
+     all earlier pages were delivered, non-empty, each with its token *)
+  Theorem C15_scan_failure_is_explicit : forall fuel e pages,
+    full_scan env_ser env_de max default coll fuel o lim = Failed e pages ->
+    status_of e = 500 /\
+    (forall p, In p pages ->
+       N.of_nat (length (items p)) <= page_limit lim max default /\
+       items p <> [] /\ next_page p <> None) /\
+    exists its' k' tail,
+      view o coll = concat (map items pages) ++ its' ++ k' :: tail /\
+      N.of_nat (length (its' ++ [k'])) <= page_limit lim max default /\
+      serialize sel env_ser (o, k') = Err e.
+  Proof.
+    exact (scan_failure_is_explicit env_ser env_de max default coll env_round_trip env_bytes o lim
+             coll_sorted lim_nonzero cfg_default cfg_max).
+  Qed.
 End C15.
 
 (* ResultsPage::new by itself, for any item list (no contract on the handler):
@@ -152,7 +185,13 @@ Example C15_instance :
   (exists ps, full_scan ex_ser ex_de 5 2 ex_coll 2 Asc (Some 1) = OutOfFuel ps) /\
   (* a key whose token cannot be issued: the request fails (500), the scan
      reports it *)
-  (exists ps, full_scan ex_ser ex_de 5 2 [1; 300] 9 Asc (Some 2) = Failed ESerJson ps).
+  (exists ps, full_scan ex_ser ex_de 5 2 [1; 300] 9 Asc (Some 2) = Failed ESerJson ps) /\
+  (* ... after the pages before it were delivered; with a page size that does
+     not end a page on that key the scan completes *)
+  (exists ps, full_scan ex_ser ex_de 5 2 [1; 2; 300; 301] 9 Asc (Some 2) = Failed ESerJson ps /\
+              map items ps = [[1; 2]]) /\
+  (exists ps, full_scan ex_ser ex_de 5 2 [1; 4; 300] 9 Desc (Some 3) = Done ps /\
+              map items ps = [[300; 4; 1]; []]).
 Proof. vm_compute. repeat split; eexists; repeat split. Qed.
 
 Print Assumptions C15_scan_terminates.
@@ -161,5 +200,7 @@ Print Assumptions C15_scan_each_item_once.
 Print Assumptions C15_page_bounded.
 Print Assumptions C15_token_iff_nonempty.
 Print Assumptions C15_scan_request_count.
+Print Assumptions C15_scan_done_is_complete.
+Print Assumptions C15_scan_failure_is_explicit.
 Print Assumptions C15_results_page_token_iff.
 Print Assumptions C15_tokens_fit_sufficient.
